@@ -3,7 +3,7 @@
     produces, establishes each clause of the property (record [WF]).
     Statements only; proof in Proofs/WfSound.v. *)
 From PM Require Import Model.Prelude Model.Domain Model.Automaton Model.DomString
-  Cert.WfCheck Cert.ExampleAut Proofs.WfSound.
+  Cert.WfCheck Cert.ExampleAut Proofs.WfSound Model.Scheme Model.Scopes Spec.TopoSpec Proofs.ScopesProofs.
 
 Theorem c09_wf_check_sound :
   forall (K V M H P : Type) (D : DomOps K V M H P), DomEq D ->
@@ -46,8 +46,70 @@ Proof.
   split; [exact w12|]. split; [exact w13|]. exact w14.
 Qed.
 
+(** The scopes, of the algorithm rather than of its output: [populate_scopes]
+    (Model/Scopes.v — the last stage of AutomatonBuilder::finish, compared with the
+    implementation on every dump: case field [scopes]) yields, on every transition
+    graph on which it returns and in whichever order the states are handed to it,
+    for every state a key list in which each key's prerequisites precede it, without
+    repetition, and which includes every key used by the constraints of the state's
+    constraint order — given only that the key lists recorded with the accepted
+    patterns are prerequisite-first. *)
+Theorem c09_populate_scopes_ordered_and_covering :
+  forall (K V M H P : Type) (D : DomOps K V M H P), DomEq D -> acyclic (req D) ->
+  forall (A : automaton K P),
+    (forall s pk, In s (au_states A) -> In pk (a_matches s) -> prereq_ordered D (snd pk)) ->
+  forall (fuel : nat) (order : list N) (sc : list (N * list K)),
+    populate_scopes D fuel A order = Ok sc ->
+    Forall2 (fun (s : astate K P) (entry : N * list K) =>
+               fst entry = a_id s
+               /\ prereq_ordered D (snd entry)
+               /\ exists cts, cons_transitions s = Ok cts
+                    /\ forall c t, In (c, t) cts -> incl (cargs c) (snd entry))
+            (au_states A) sc.
+Proof. exact @populate_scopes_ok. Qed.
+
+(** the keys recorded with an accepted pattern, of the algorithm (add_pattern; compared
+    exactly, order included, with every accepting state of every dump: case field [mkeys]):
+    each key after its prerequisites, no key twice, and the pattern's own required
+    bindings and every key of its constraints are among them *)
+Theorem c09_pattern_keys_ordered_and_covering :
+  forall (K V M H P : Type) (D : DomOps K V M H P), DomEq D -> acyclic (req D) ->
+  forall (fuel : nat) (extra : list K) (cs : list (constraint K P)) (l : list K),
+    pattern_keys D fuel extra cs = Ok l ->
+    prereq_ordered D l /\ incl extra l /\ forall c, In c cs -> incl (cargs c) l.
+Proof. exact @pattern_keys_ok. Qed.
+
+(** together: an automaton whose recorded key lists are the ones add_pattern computes
+    gets prerequisite-first, covering scopes from populate_scopes *)
+Theorem c09_scopes_after_add_pattern :
+  forall (K V M H P : Type) (D : DomOps K V M H P), DomEq D -> acyclic (req D) ->
+  forall (fuel fuel' : nat) (A : automaton K P) (pats : list (option (list K * list (constraint K P))))
+         (order : list N) (sc : list (N * list K)),
+    match_key_mismatches D fuel' A pats = [] ->
+    populate_scopes D fuel A order = Ok sc ->
+    Forall2 (fun (s : astate K P) (entry : N * list K) =>
+               fst entry = a_id s
+               /\ prereq_ordered D (snd entry)
+               /\ exists cts, cons_transitions s = Ok cts
+                    /\ forall c t, In (c, t) cts -> incl (cargs c) (snd entry))
+            (au_states A) sc.
+Proof. exact @populate_scopes_after_add_pattern. Qed.
+
+(** on the example automaton the algorithm returns, and returns the recorded scopes *)
+Example c09_example_scopes :
+  match populate_scopes string_dom 1000 ex_aut [0; 4; 6; 1; 2]%N with
+  | Ok sc => scope_mismatches string_dom ex_aut sc
+  | _ => [99%N]
+  end = []
+  /\ match_key_mismatches string_dom 1000 ex_aut (map (fun p => Some ([], s_cvec p)) ex_pats) = []
+  /\ pattern_keys string_dom 1000 [] (s_cvec [Lit 97%N; Lit 97%N]) = Ok [0; 1]%N.
+Proof. vm_compute. repeat split; reflexivity. Qed.
+
 Example c09_example : wf_check string_dom ex_aut (compute_rank ex_aut) [0; 1; 2]%N = true.
 Proof. vm_compute. reflexivity. Qed.
 
 Print Assumptions c09_wf_check_sound.
 Print Assumptions c09_clauses.
+Print Assumptions c09_populate_scopes_ordered_and_covering.
+Print Assumptions c09_pattern_keys_ordered_and_covering.
+Print Assumptions c09_scopes_after_add_pattern.
